@@ -166,47 +166,48 @@ class UnifiedRTFEncoder(EncodingStrategy):
     def encode(self, document: Any) -> str:
         """Encode the document using the unified pipeline."""
 
-        # 1. Figure-only handling
-        if document.df is None:
-            return self._encode_figure_only(document)
-
-        # 2. Multi-section handling
-        if isinstance(document.df, list):
-            return self._encode_multi_section(document)
-
-        # 3. Standard Pipeline
+        # The color context is needed by every path (titles, footnotes and
+        # page headers resolve color indices too) and must not outlive the call.
         color_service.set_document_context(document)
+        try:
+            # 1. Figure-only handling
+            if document.df is None:
+                return self._encode_figure_only(document)
 
-        page_rtf_chunks = self._encode_body_section(
-            document, document.df, document.rtf_body
-        )
+            # 2. Multi-section handling
+            if isinstance(document.df, list):
+                return self._encode_multi_section(document)
 
-        # F. Assembly
-        result = "\n".join(
-            [
-                item
-                for item in [
-                    self.encoding_service.encode_document_start(),
-                    self.encoding_service.encode_font_table(),
-                    self.encoding_service.encode_color_table(document),
-                    "\n",
-                    self.encoding_service.encode_page_header(
-                        document.rtf_page_header, method="line"
-                    ),
-                    self.encoding_service.encode_page_footer(
-                        document.rtf_page_footer, method="line"
-                    ),
-                    self.encoding_service.encode_page_settings(document.rtf_page),
-                    "\n".join(page_rtf_chunks),
-                    "\n\n",
-                    "}",
+            # 3. Standard Pipeline
+            page_rtf_chunks = self._encode_body_section(
+                document, document.df, document.rtf_body
+            )
+
+            # F. Assembly
+            return "\n".join(
+                [
+                    item
+                    for item in [
+                        self.encoding_service.encode_document_start(),
+                        self.encoding_service.encode_font_table(),
+                        self.encoding_service.encode_color_table(document),
+                        "\n",
+                        self.encoding_service.encode_page_header(
+                            document.rtf_page_header, method="line"
+                        ),
+                        self.encoding_service.encode_page_footer(
+                            document.rtf_page_footer, method="line"
+                        ),
+                        self.encoding_service.encode_page_settings(document.rtf_page),
+                        "\n".join(page_rtf_chunks),
+                        "\n\n",
+                        "}",
+                    ]
+                    if item is not None
                 ]
-                if item is not None
-            ]
-        )
-
-        color_service.clear_document_context()
-        return result
+            )
+        finally:
+            color_service.clear_document_context()
 
     def _apply_data_post_processing(self, pages, processed_df, rtf_body):
         """Sync page data with processed dataframe and handle group_by restoration."""
